@@ -98,9 +98,12 @@ theorem cursor_read_err (data : Bytes) (p n : Nat) (hn : 0 < n) (h : data.length
   simp only [List.length_take, List.length_drop]
   rw [if_neg (by omega)]
 
-/-- `CursorReadStmt` is FALSE as written: a read of zero bytes at a position beyond the end succeeds
+theorem cursor_read : CursorReadStmt :=
+  fun data p n => ⟨cursor_read_ok data p n, cursor_read_err data p n⟩
+
+/-- `CursorReadStmtOriginal` is FALSE as written: a read of zero bytes at a position beyond the end succeeds
     (`data = []`, `p = 1`, `n = 0`), in the model as in `read_exact` on a `Cursor` -/
-theorem cursor_read_false : ¬ CursorReadStmt := by
+theorem cursor_read_false : ¬ CursorReadStmtOriginal := by
   intro h
   have := (h [] 1 0).2 (by decide)
   simp [Cur.read, Cur.at] at this
